@@ -139,6 +139,14 @@ func (d *Discharger) Discharge(vc *VC) {
 		if ob.Cover {
 			ok = res == "sat"
 		}
+		if ob.Cover && res == "unsat" {
+			// vacuity: with all axioms (quantified ones included) no return satisfies the antecedent
+			ob.Result = "unsat"
+			ob.Solver = "z3-new(incremental, all axioms)"
+			ob.Seconds = r.seconds / float64(len(obs))
+			ob.File = inc
+			continue
+		}
 		if ok {
 			ob.Result = res
 			ob.Solver = "z3-new(incremental)"
